@@ -49,7 +49,7 @@ def plan(tier, seed):
         specs.append({"stratum": "json-deep-and-wide", "family": "json", "n": 10 if q else 80, "k": k, "clean": True, "deepwide": True,
                       "case_timeout": 240, "shrink": False})
     for k in range(2 if q else 8):
-        specs.append({"stratum": "collections-still-expanding-while-sub-edits-finish", "n": 120 if q else 2000, "k": k, "clean": True,
+        specs.append({"stratum": "collections-still-expanding-while-sub-edits-finish", "n": 240 if q else 3000, "k": k, "clean": True,
                       "expanding": True})
     per_f = 250 if q else 5000
     for fam in ["basic", "xml", "csv", "plist", "dataclass", "pyobj"]:
@@ -62,6 +62,14 @@ def plan(tier, seed):
     return specs
 
 
+def _no_null(o):
+    if isinstance(o, dict):
+        return {k: _no_null(v) for k, v in o.items()}
+    if isinstance(o, list):
+        return [_no_null(v) for v in o]
+    return "nil" if o is None else o
+
+
 def gen_cases(spec, ctx):
     from gv.props import c01
     r = ctx.rng
@@ -70,7 +78,51 @@ def gen_cases(spec, ctx):
         # its sub-edits while early ones -- nested mappings with several multi-step changes -- finish refining at different times
         def word(n_):
             return "".join(r.choice("abcdefgh") for _ in range(n_))
-        for _ in range(spec["n"]):
+        for i_case in range(spec["n"]):
+            if i_case % 3 == 1:
+                # a plist (edit collection around the root edit) whose mappings have unshared keys on both sides with skewed
+                # sizes: a matcher step may lower only an upper bound that is still above the collection's own cap
+                a, b = gen.dict_pair_for_matching(r)
+                big = word(r.randint(12, 30))
+                for d_ in (a, b):
+                    if d_ and r.random() < 0.7:
+                        d_[r.choice(list(d_))] = big + word(2)
+                if r.random() < 0.5:
+                    b[word(10) + "1"], b[word(10) + "2"] = word(20), word(20)
+                a = {k_: ("nil" if v_ is None else v_) for k_, v_ in a.items()}
+                b = {k_: ("nil" if v_ is None else v_) for k_, v_ in b.items()}
+                case = {"family": "plist", "a": _no_null(a), "b": _no_null(b), "ds": r.choice(gen.DS), "le": r.choice(gen.LE)}
+                case["mode"] = r.choice(MODES)
+                case["quiet"] = r.random() < 0.5
+                case["k"] = r.randint(0, 6) if case["mode"] == "stop-resume" else r.randrange(1 << 20)
+                yield case
+                continue
+            if i_case % 3 == 2:
+                # a list whose first and last items change a little while several items between them stay: cheap matches at both
+                # ends of the matrix, zero-cost matches in the middle
+                def item():
+                    return r.choice([r.randint(100, 999), word(4), {"id": r.randint(2, 9)}, [r.randint(2, 9), 2]])
+                def nudge(v):
+                    if isinstance(v, int):
+                        return v + 1
+                    if isinstance(v, str):
+                        return v[:-1] + "z"
+                    if isinstance(v, dict):
+                        return {"id": v["id"] + 1}
+                    return [v[0] + 1] + v[1:]
+                mid = [r.choice([1, 2, 3, "a", "b", word(2)]) for _ in range(r.randint(2, 7))]
+                f0, f1 = item(), item()
+                a, b = [f0] + mid + [f1], [nudge(f0)] + mid + [nudge(f1)]
+                if r.random() < 0.4:
+                    a, b = [a], [b]
+                if r.random() < 0.3:
+                    a, b = {"k": a}, {"k2": b}
+                case = {"family": "json", "a": a, "b": b, "ds": r.choice(gen.DS), "le": r.choice(["on", "on", "same"])}
+                case["mode"] = r.choice(MODES)
+                case["quiet"] = r.random() < 0.5
+                case["k"] = r.randint(0, 6) if case["mode"] == "stop-resume" else r.randrange(1 << 20)
+                yield case
+                continue
             nkeys = r.randint(5, 14)
             a = {}
             for i in range(nkeys):
